@@ -65,36 +65,19 @@ theorem minusUsed_sublist (used fb : List Host) : (minusUsed used fb).Sublist fb
 
 /-! ### remote walk -/
 
-theorem remoteWalk_sublist (up : Nat → Bool) (bs : List (List Host)) :
-    (remoteWalk up bs).Sublist (bs.flatten.filter (fun h => up h.id)) := by
-  induction bs with
-  | nil => simp [remoteWalk]
-  | cons b rest ih =>
-    unfold remoteWalk
-    split
-    · exact List.nil_sublist _
-    · rw [List.flatten_cons, List.filter_append]
-      exact List.Sublist.append (List.Sublist.refl _) ih
-
-/-- no empty bucket before a non-empty one -/
-def NoGap : List (List Host) → Prop
-  | [] => True
-  | b :: rest => (b = [] → ∀ c ∈ rest, c = []) ∧ NoGap rest
-
-theorem remoteWalk_full (up : Nat → Bool) (bs : List (List Host)) (hg : NoGap bs) :
+/-- the walk visits every bucket to its end: it offers the up hosts of all buckets, bucket after bucket -/
+theorem remoteWalk_full (up : Nat → Bool) (bs : List (List Host)) :
     remoteWalk up bs = bs.flatten.filter (fun h => up h.id) := by
   induction bs with
   | nil => simp [remoteWalk]
   | cons b rest ih =>
     unfold remoteWalk
-    obtain ⟨h1, h2⟩ := hg
-    split
-    · rename_i he
-      have hb : b = [] := by simpa using he
-      have : rest.flatten = [] := by
-        rw [List.flatten_eq_nil_iff]; exact h1 hb
-      simp [hb, this]
-    · rw [List.flatten_cons, List.filter_append, ih h2]
+    rw [List.flatten_cons, List.filter_append, ih]
+
+theorem remoteWalk_sublist (up : Nat → Bool) (bs : List (List Host)) :
+    (remoteWalk up bs).Sublist (bs.flatten.filter (fun h => up h.id)) := by
+  rw [remoteWalk_full]
+  exact List.Sublist.refl _
 
 theorem mem_bucket (tier : Host → Nat) (m : Nat) (reps : List Host) (x : Host)
     (hx : x ∈ (remoteBuckets tier m reps).flatten) : x ∈ reps ∧ 1 ≤ tier x ∧ tier x ≤ m := by
@@ -186,25 +169,25 @@ theorem taSeq_up (tier : Host → Nat) (m : Nat) (up : Nat → Bool) (nl : Bool)
   · exact (mem_taHead tier m up nl reps x hx).2
   · exact hfb x hx.1
 
-/-- with non-local fallback and no empty bucket before a non-empty one, the replica phases offer the up
-replicas tier by tier -/
-theorem taHead_by_tier (tier : Host → Nat) (m : Nat) (up : Nat → Bool) (reps : List Host)
-    (hg : NoGap (remoteBuckets tier m reps)) :
-    taHead tier m up true reps =
-      ((List.range (m + 1)).map (fun t => reps.filter (fun h => tier h == t && up h.id))).flatten := by
-  unfold taHead
-  simp only [if_true]
-  rw [remoteWalk_full up _ hg, List.range_succ_eq_map, List.map_cons, List.flatten_cons]
-  congr 1
-  simp only [remoteBuckets, List.map_map]
-  generalize List.range m = ts
-  induction ts with
-  | nil => simp
-  | cons t r ih =>
-    simp only [List.map_cons, List.flatten_cons, List.filter_append, ih, List.filter_filter, Function.comp]
+/-- the replica phases offer exactly the specified head: the up replicas tier by tier (all tiers with
+non-local fallback, tier 0 only without), for EVERY replica list -/
+theorem taHead_eq_specHead (tier : Host → Nat) (m : Nat) (up : Nat → Bool) (nl : Bool) (reps : List Host) :
+    taHead tier m up nl reps = specHead tier m up nl reps := by
+  unfold taHead specHead localReplicas
+  cases nl
+  · simp
+  · simp only [if_true]
+    rw [remoteWalk_full up _, List.range_succ_eq_map, List.map_cons, List.flatten_cons]
     congr 1
-    apply List.filter_congr
-    intro x _
-    simp [Bool.and_comm]
+    simp only [remoteBuckets, List.map_map]
+    generalize List.range m = ts
+    induction ts with
+    | nil => simp
+    | cons t r ih =>
+      simp only [List.map_cons, List.flatten_cons, List.filter_append, ih, List.filter_filter, Function.comp]
+      congr 1
+      apply List.filter_congr
+      intro x _
+      simp [Bool.and_comm]
 
 end C11
